@@ -14,8 +14,7 @@ RULE = ("seeded reduced-form indexed grammars (<=4 non-terminals, <=2 indices, <
         "PYTHONHASHSEED; verdict of is_empty / bool / second call / after remove_useless_rules against the exact "
         "table fixpoint; intersection with a seeded automaton against the reference product; non-trivial = "
         "grammar has a production and a consumption rule; distinct = (rule-set digest, permutation sample seed)")
-ASSUMPTIONS = ["non-terminal names avoid the product construction's reserved 'T' and tuple spellings",
-               "a rule is listed at most once (the rule list is a set)"]
+ASSUMPTIONS = ["non-terminal names avoid the product construction's reserved 'T' and tuple spellings"]
 NT = ["S", "A", "B", "C"]
 IDX = ["f", "g"]
 TERM = ["a", "b"]
@@ -54,8 +53,11 @@ def gen(rng, tier):
     fa["symbols"] = [s for s in fa["symbols"] if s in ("a", "b")] or ["a"]
     fa["trans"] = [t for t in fa["trans"] if t[1] is None or t[1] in ("a", "b")]
     fa["extra_symbols"] = []
+    if rng.chance(0.1) and rules:
+        rules.append(list(rng.pick(rules)))          # the same rule listed twice
+    int_idx = rng.chance(0.1)                        # index symbols that are ints, not strings
     start = "S" if rng.chance(0.8) else rng.pick(nts)
-    return {"rules": rules, "start": start, "perm_seed": rng.getrandbits(30), "nperm": 12 if tier == "quick" else 60,
+    return {"rules": rules, "start": start, "int_idx": int_idx, "perm_seed": rng.getrandbits(30), "nperm": 12 if tier == "quick" else 60,
             "fa": GF.fix_kind(fa), "with_intersection": rng.chance(0.5) and len(rules) <= 6}
 
 
@@ -67,15 +69,26 @@ def shrink(case):
         yield dict(case, nperm=max(1, case["nperm"] // 2))
     if case.get("start", "S") != "S":
         yield dict(case, start="S")
+    if case.get("int_idx"):
+        yield dict(case, int_idx=False)
     if case.get("with_intersection"):
         for c in GF.shrink_fa(case["fa"]):
             if c["valmode"] == "str" and c["symmode"] == "str":
                 yield dict(case, fa=c)
 
 
-def mk(r):
+IDX_INT = {"f": 1, "g": 2}
+
+
+def mk(r, int_idx=False):
     from pyformlang.indexed_grammar import EndRule, ProductionRule, ConsumptionRule, DuplicationRule
-    return {"E": EndRule, "P": ProductionRule, "C": ConsumptionRule, "D": DuplicationRule}[r[0]](*r[1:])
+    args = list(r[1:])
+    if int_idx:
+        if r[0] == "P":
+            args[2] = IDX_INT[args[2]]
+        elif r[0] == "C":
+            args[0] = IDX_INT[args[0]]
+    return {"E": EndRule, "P": ProductionRule, "C": ConsumptionRule, "D": DuplicationRule}[r[0]](*args)
 
 
 def _perms(case):
@@ -108,6 +121,10 @@ def run(case, out):
     for r in case["rules"]:
         if r[0] == "C":
             cons.setdefault((r[1], r[2]), []).append(r)
+    if len({tuple(r) for r in case["rules"]}) < len(case["rules"]):
+        out.probe("a_rule_listed_twice")
+    if case.get("int_idx"):
+        out.probe("int_index_symbols")
     if any(len(v) > 1 for v in cons.values()):
         out.probe("several_consumption_rules_same_index_and_nonterminal")
     if not want and "P" in kinds and not M.Ig([r for r in case["rules"] if r[0] != "P"]).is_empty() is False:
@@ -120,7 +137,7 @@ def run(case, out):
             _random.seed(case["perm_seed"] + pi)      # seam S2: optim=8 shuffles with the global generator
 
             def build():
-                return IndexedGrammar(Rules([mk(r) for r in rl], optim), start)
+                return IndexedGrammar(Rules([mk(r, case.get("int_idx")) for r in rl], optim), start)
             ig = out.call("IndexedGrammar(optim=%d)" % optim, build)
             if ig is FAILED:
                 break
@@ -150,7 +167,10 @@ def run(case, out):
         out.probe("intersection_empty" if wanti else "intersection_non_empty")
         for optim in (7, 0, 3):
             _random.seed(case["perm_seed"])
-            ig = IndexedGrammar(Rules([mk(r) for r in case["rules"]], optim), start)
+            ig = out.call("IndexedGrammar(optim=%d)" % optim, lambda: IndexedGrammar(
+                Rules([mk(r, case.get("int_idx")) for r in case["rules"]], optim), start))
+            if ig is FAILED:
+                break
             res = out.call("intersection", ig.intersection, GF.build(case["fa"]))
             if res is FAILED:
                 break
